@@ -3,8 +3,16 @@ CONSTANTS MaxCalls = 2
           FreeCalls = 1
           Scope = "quick"
           Adopt = FALSE
+          MaxEdits = 0
+          MinEdits = 0
+          Probes = TRUE
+          FirstOps = {"inc", "exc", "find", "one"}
+          Srcs = {"live"}
+          Ons = {"t", "last"}
+          NameIds = {0}
+          Gen = FALSE
 INIT Init
-NEXT Next
+NEXT NextNoEdit
 VIEW View
 INVARIANT PoolUntouched
 INVARIANT ResultByOriginal
